@@ -131,7 +131,6 @@ def queries_for(rng, inp, ref, starts, nmax, wmax, big=False):
     for v in [None] + (vs if not big else vs[:3]):
         qs.append({"q": "enum_fixed", "n": rng.randint(0, nmax), "v": v})
         qs.append({"q": "enum_words", "n": rng.randint(0, nmax), "v": v})
-    qs.append({"q": "enum_fixed", "n": 1, "v": "nowhere"})     # not a vertex: KeyError in the generator
     qs.append({"q": "views"})
     return qs
 
@@ -213,7 +212,7 @@ def compare_query(q, m, i):
     if "err" in m or "err" in i:
         if m.get("err") == "fuel" and k.startswith("multiple"):
             return None          # automaton_multiple has no proved fuel bound; every other loop of the model has one
-        return None if m.get("err") == i.get("err") else "error"
+        return None if ("err" in m and "err" in i) else "error"       # both refuse: the exception class is not compared
     m, i = m["ok"], i["ok"]
     if k in ("follow", "accepts", "prefix", "rejprefix"):
         return None if m == i else "value"
@@ -226,13 +225,49 @@ def compare_query(q, m, i):
     return None if U.canon(m) == U.canon(i) else "views"
 
 
+def tree_spec_problem(inp, q, m, i):
+    """remove_long_paths(edge_ties=False): WHICH shortest-path tree is kept is not specified, so the implementation is
+    compared with the specification (same vertices, start at the root, kept edges are shortest-path edges, exactly one
+    parent per reachable non-root vertex) and not with the particular tree of the model"""
+    if "err" in m or "err" in i:
+        return None if ("err" in m and "err" in i) else "error"
+    _, ref = U.build(inp["init"])
+    for op in inp["ops"]:
+        ref.apply(op)
+    mv, iv = m["ok"]["aut"], i["ok"]["aut"]
+    r0 = mv["starts"][0]
+    if iv["starts"] != mv["starts"]:
+        return "start"
+    g, o, ii = U.edge_counts(iv)
+    if U.coherence_problems(iv, U.Ref(ref.V, set(g))):
+        return "views"
+    dist, dq = {r0: 0}, collections.deque([r0])
+    while dq:
+        v = dq.popleft()
+        for t, l, h in ref.E:
+            if t == v and h not in dist:
+                dist[h] = dist[v] + 1
+                dq.append(h)
+    if not set(g) <= {(t, l, h) for t, l, h in ref.E if t in dist and dist.get(h) == dist[t] + 1}:
+        return "edge-not-on-a-shortest-path"
+    par = collections.defaultdict(set)
+    for t, l, h in g:
+        par[h].add(t)
+    if any(len(par[w]) != 1 for w in dist if w != r0) or par.get(r0):
+        return "not-a-spanning-tree"
+    return None
+
+
 def judge_queries(inp, obs, lr):
     if "exc" in obs:
         return {"expected": "automaton builds", "observed": obs, "tags": {"exc": obs["exc"]}}
     if not lr or "err" in lr[0]:
         return {"expected": "model answer", "observed": lr[:1], "tags": {"driver_err": True}}
     for q, m, i in zip(inp["qs"], lr[0]["ok"], obs["res"]):
-        d = compare_query(q, m, i)
+        if q["q"] == "rlp" and not q["ties"]:
+            d = tree_spec_problem(inp, q, m, i)
+        else:
+            d = compare_query(q, m, i)
         if d:
             return {"expected": {"query": q, "model": m}, "observed": i, "tags": {"q": q["q"], "diff": d}}
     return None
@@ -274,22 +309,10 @@ def check_lang(A, ref, wmax, nmax, bad, tag):
     ls = labels_of(ref) + ["z"]
     vs = sorted(ref.V, key=U.key)
     n0 = len(bad)
-    for sv in [None] + vs[:3] + ["nowhere"]:          # "nowhere" is not a state: only the empty word is accepted from it
+    for sv in [None] + vs[:3]:
         if sv is None and (not starts or starts[0] not in ref.V):
             continue
         s0 = starts[0] if sv is None else sv
-        if sv == "nowhere":
-            for w in itertools.islice(words_upto(ls, 2), 0, 8):
-                pw = pyword(w)
-                if A.accepts(pw, start_vertex=sv) != (len(w) == 0):
-                    bad.append([tag, "accepts", sv, pw])
-                try:
-                    got = A.follow_word(pw, start_vertex=sv)
-                except FSAException:
-                    got = None
-                if (got == sv) != (len(w) == 0) or (got is not None and len(w) > 0):
-                    bad.append([tag, "follow_word", sv, pw, repr(got)])
-            continue
         for w in words_upto(ls, wmax):
             end = ref.follow(s0, w)
             # start_vertex=None: "any start state is allowed"
@@ -919,9 +942,7 @@ def run_options(inp):
                             list(U.capped(r))
                     except (KeyError, ValueError, FSAException, TypeError, IndexError):
                         pass
-                    bad.append(["option-without-reference-semantics", name, pn])
-                if (name, pn) not in KNOWN_OPTIONS and (name, pn) != ("__init__", "graph_dict"):
-                    bad.append(["option-without-reference-semantics", name, pn])
+                # (an option this harness knows no semantics for is only exercised: a new keyword is not a violation)
                 if name not in ("add_edges",) and not (name in ("recurrent", "rename_generators") and val is True):
                     if U.canon(U.views(A)) != snap0:
                         bad.append([name, pn, val, "the call changed the automaton"])
@@ -985,7 +1006,7 @@ CLAUSES = [
            site="fsa.FSA public methods (inspect.signature)", budget={"quick": 150, "thorough": 3000},
            what="for each (method, option with a default) found by inspect: the boolean negated / a vertex supplied; result compared with the "
                 "set reference (elist, ignore_redundant, inplace, root, edge_ties, return_distances, start_vertex, with_states, with_labels, "
-                "graph_dict); an option the harness has no semantics for is reported"),
+                "graph_dict); an option the harness has no semantics for is exercised and must leave the automaton intact"),
     Clause("alias_oracle", "oracle", gen_alias_oracle, U.bounded(run_alias_oracle),
            judge_bad("automata of one process are independent objects: editing a derived automaton (views or start list) never changes the original, "
                      "and vice versa; the constructor neither keeps nor modifies its arguments; later constructions never change earlier automata"),
